@@ -389,13 +389,22 @@ spec fn req_sent_to(s0: ReqSocket, s1: ReqSocket, r: ZmqResult<()>, frames: Seq<
 spec fn req_received_from(s0: ReqSocket, s1: ReqSocket, r: ZmqResult<ZmqMessage>, p: PeerIdentity) -> bool {
     let t0 = s0.backend.peers@; let t1 = s1.backend.peers@;
     &&& s1.current_request is None
-    &&& same_except(t0, t1, p)
-    &&& t1[p].send_queue == t0[p].send_queue
-    &&& t1[p]._identity == t0[p]._identity
-    &&& t1[p].recv_queue.log@.len() == t0[p].recv_queue.log@.len() + 1
-    &&& t1[p].recv_queue.log@.subrange(0, t0[p].recv_queue.log@.len() as int) =~= t0[p].recv_queue.log@
-    &&& req_reply_ok(t1[p].recv_queue.log@.last(), r)
+    &&& {
+        // an item was read from that peer and it alone decides; every other entry is untouched
+        ||| (same_except(t0, t1, p)
+            && t1[p].send_queue == t0[p].send_queue
+            && t1[p]._identity == t0[p]._identity
+            && t1[p].recv_queue.log@.len() == t0[p].recv_queue.log@.len() + 1
+            && t1[p].recv_queue.log@.subrange(0, t0[p].recv_queue.log@.len() as int) =~= t0[p].recv_queue.log@
+            && item_read(t1[p].recv_queue.log@.last())
+            && req_reply_ok(t1[p].recv_queue.log@.last(), r))
+        // C16: the read failed (connection error or end of stream): the call fails and that peer - no other - is
+        // forgotten, so that no later send is routed to the dead connection
+        ||| (r is Err && t1 =~= t0.remove(p))
+    }
 }
+/// the connection delivered something (a message, a command or a greeting): not an error, not the end of the stream
+pub open spec fn item_read(item: Option<CodecResult<Message>>) -> bool { item is Some && item->Some_0 is Ok }
 /// the reply is accepted iff it is a message of >= 2 frames whose first frame is the empty delimiter,
 /// and then exactly that delimiter is removed
 pub open spec fn req_reply_ok(item: Option<CodecResult<Message>>, r: ZmqResult<ZmqMessage>) -> bool {
